@@ -266,6 +266,22 @@ theorem lexDouble_sound {s r : List Char} {t : E} (h : lexDouble s = some (r, t)
   · exact nanInf_spec h
 
 
+/-- `parse_const` accepts only what `lexDouble` accepts -/
+theorem parseConst_some {s r : List Char} {t : E} (h : parseConst s = some (r, t)) :
+    lexDouble s = some (r, t) := by
+  unfold parseConst at h
+  split at h
+  · rename_i rest t0 hl
+    split at h
+    · cases h
+    · cases h; exact hl
+  · cases h
+
+/-- `parseConst` on an input that does not start with '-' recognises a `NumLeaf` -/
+theorem parseConst_sound {s r : List Char} {t : E} (h : parseConst s = some (r, t))
+    (hneg : s.head? ≠ some '-') : ∃ pre, s = pre ++ r ∧ NumLeaf t pre :=
+  lexDouble_sound (parseConst_some h) hneg
+
 theorem foldl_i32Step_none (neg : Bool) (ds : List Char) : ds.foldl (i32Step neg) none = none := by
   induction ds with
   | nil => rfl
@@ -377,7 +393,7 @@ def atomR (fuel : Nat) (ctx : Ctx) (s1 : List Char) : R E :=
   | .ok r t => .ok r t
   | .oof => .oof
   | .fail =>
-    match lexDouble s1 with
+    match parseConst s1 with
     | some (r, t) => .ok r t
     | none =>
       match parseFunc fuel ctx s1 with
@@ -422,7 +438,7 @@ theorem atomR_sound {ctx : Ctx} {fuel : Nat} (ih : SoundAt ctx fuel) {s1 rest : 
   · rename_i r t0 hp; cases h; exact ih.par _ _ _ hp
   · cases h
   · split at h
-    · rename_i r t0 hl; cases h; obtain ⟨pre, hs, hn⟩ := lexDouble_sound hl hneg
+    · rename_i r t0 hl; cases h; obtain ⟨pre, hs, hn⟩ := parseConst_sound hl hneg
       exact ⟨pre, hs, PAtom.num hn⟩
     · split at h
       · rename_i r t0 hf; cases h; exact ih.func _ _ _ hf
